@@ -196,6 +196,33 @@ theorem c09_full_is_refused (s : State) (p v c : Nat) :
       cases hi : s.items <;> cases hf : waitersFull s <;> simp_all
     simp [this]
 
+/-- A `pop` on a non-empty queue whose hand-over throws (the item's move constructor throws while the future's value
+is built): the caller gets the exception instead of a future, and the queue - items, waiters, every future, the pop
+serials - is exactly what it was; in particular the item is still at the front, for the next pop.  On an empty
+queue nothing is handed over: an ordinary `pop`. -/
+theorem c09_pop_throw_keeps_item (s : State) (c : Nat) :
+    (∀ x xs, s.items = x :: xs →
+        (stepPopThrowC s c).2 = Res.threw ∧ (stepPopThrowC s c).1 = { s with rethrown := s.rethrown ++ [x] }
+        ∧ (stepPopThrowC s c).1.items = x :: xs ∧ (stepPopThrowC s c).1.nextPop = s.nextPop
+        ∧ (stepPopThrowC s c).1.served = s.served ∧ (stepPopThrowC s c).1.completed = s.completed) ∧
+    (s.items = [] → stepPopThrowC s c = stepPopC s c) := by
+  unfold stepPopThrowC
+  constructor
+  · intro x xs h; simp [h]
+  · intro h; simp [h]
+
+/-- Exactly-once includes the items whose hand-over threw (any number of times): each of them was pushed and is, like
+every pushed item, in exactly one place - handed to exactly one pop or still queued - never dropped by the failed
+hand-over, never delivered twice. -/
+theorem c09_rethrown_exactly_once {s : State} (h : Reachable s) (it : Item) (hit : it ∈ s.rethrown) :
+    it ∈ s.pushed ∧ (delivered s ++ s.items).count it = 1 := by
+  have hi := reachable_inv h
+  have hp := reachable_rinv h it hit
+  refine ⟨hp, ?_⟩
+  have hf : delivered s ++ s.items = s.pushed := hi.fifo
+  rw [hf, (nodup_pushed hi).count]
+  simp [hp]
+
 /-- `unblock_pop(c)` fails exactly the oldest waiting pop with the given exception and touches nothing else;
 with nobody waiting it reports false and is a no-op. -/
 theorem c09_unblock_oldest (s : State) (c : Nat) :
@@ -244,6 +271,12 @@ example : (run (initCfg (some 1) (some 1)) [Op.push 0 1, Op.push 0 2, Op.pop 0, 
       Op.deliver 0]).completed = [⟨⟨0, 0⟩, Out.val ⟨0, 0, 1⟩⟩, ⟨⟨1, 0⟩, Out.val ⟨1, 0, 3⟩⟩]
     ∧ (step (run (initCfg (some 1) (some 1)) [Op.push 0 1]) (Op.push 0 2)).2 = Res.full
     ∧ (step (run (initCfg (some 1) (some 1)) [Op.pop 0]) (Op.pop 0)).2 = Res.full := by decide
+
+/-- non-vacuity: the hand-over of item 0 throws twice, the third pop receives it, the next one item 1 -/
+example : (run init [Op.push 0 7, Op.push 0 8, Op.popthrow 0, Op.popthrow 1, Op.pop 0, Op.pop 0]).completed
+      = [⟨⟨0, 0⟩, Out.val ⟨0, 0, 7⟩⟩, ⟨⟨1, 0⟩, Out.val ⟨1, 0, 8⟩⟩]
+    ∧ (run init [Op.push 0 7, Op.push 0 8, Op.popthrow 0, Op.popthrow 1, Op.pop 0, Op.pop 0]).rethrown
+      = [⟨0, 0, 7⟩, ⟨0, 0, 7⟩] := by decide
 
 /-- non-vacuity of disjunct (d): two pops wait, a push throws, the oldest completes as canceled, the queue lives on -/
 example : (run init [Op.pop 0, Op.pop 1, Op.pushthrow, Op.deliver 0, Op.push 0 5]).completed = [⟨⟨0, 0⟩, Out.canceled⟩]
